@@ -114,6 +114,9 @@ def r2(run):
             cls, why = None, ""
             if recv[0] == "call" and recv[1].fn in ("serde_json::ser::to_vec", "serde_json::ser::to_string", "serde_json::value::to_value"):
                 cls, why = "serialisation", "serialising a Frame / Value cannot fail (string keys, no non-finite floats)"
+            elif recv[0] == "call" and recv[1].fn == "serde_json::ser::to_writer" and recv[1].args and \
+                    (lambda l: l is not None and "alloc::vec::Vec<u8" in b.local_tystr(l))(q.root_local(b, recv[1].args[0])):
+                cls, why = "serialisation", "serialising a Frame / Value into an in-memory Vec<u8> cannot fail (no I/O, string keys, no non-finite floats)"
             elif recv[0] == "call" and recv[1].fn == "core::str::<impl str>::strip_prefix":
                 lit = q.const_strs(recv[2][1])
                 guards = []
